@@ -560,9 +560,11 @@ func runStorm(st Storm, idx int) (fs []finding, obs map[string]int, rerr error) 
 		if i > 0 && (results[i-1].err != nil || results[i-1].ack.Code != 0) {
 			continue
 		}
-		if c.Ping(2*time.Second) == nil {
+		// a displaced socket is at EOF (Ping fails at once), the survivor answers in milliseconds; the generous
+		// bound only matters on a starved machine, where a short one would turn slowness into a verdict
+		if c.Ping(step) == nil {
 			alive = append(alive, i)
-		} else if !c.WaitEOF(2 * time.Second) {
+		} else if !c.WaitEOF(step) {
 			add("storm.zombie_socket", fmt.Sprintf("socket %d neither answers PINGREQ nor was closed by the broker", i))
 		}
 	}
